@@ -81,6 +81,8 @@ func runC02(cfg Config, r *Result) {
 			r.Sample(map[string]any{"program": src})
 		}
 	}
+	// the certificate checker Static.wt on every parser-accepted tree (corpus, generated programs, witnesses)
+	runC02WT(cfg, r)
 }
 
 func init() { register("C02", runC02) }
